@@ -1,12 +1,12 @@
 CONSTANTS NConns = 3
   MaxMsgs = 2
-  MaxTempErrs = 2
+  MaxTempErrs = 1
   Recover = TRUE
-  RetryTemp = FALSE
+  RetryTemp = TRUE
   SequencedBad = TRUE
-  TLS = FALSE
-  HsInServe = TRUE
+  TLS = TRUE
+  HsInServe = FALSE
 INIT Init
 NEXT Next
-INVARIANTS KeepsAccepting
+INVARIANTS AcceptNotBlocked
 CHECK_DEADLOCK FALSE
